@@ -27,6 +27,7 @@ import optuna
 
 from verif import core
 from verif import storage_k as K
+from verif.props import c01_inmem_gen
 
 optuna.logging.set_verbosity(optuna.logging.ERROR)
 
@@ -249,6 +250,7 @@ def run_history(ops: list[dict[str, Any]], drv: core.Driver, coarse_errors: bool
     t2r: list[int] = []
     dropped_all: set[str] = set()
     stats = {"steps": 0, "burnt": 0, "cursor_moves": 0, "best_changes": 0, "faults": 0}
+    gen: Any = None  # first call on which the interpreter of the GENERATED methods and the hand model differ (driver `inmemorygen`)
     last_prev: Any = None
     last_best: Any = None
     for i, cop in enumerate(ops):
@@ -261,6 +263,8 @@ def run_history(ops: list[dict[str, Any]], drv: core.Driver, coarse_errors: bool
         resp = drv.ask(K.to_driver(op))
         if "out" not in resp:
             raise core.DriverBroken("driver inmemory: %s on %s" % (resp, op))
+        if gen is None and c01_inmem_gen.gen_disagreement(resp) is not None:
+            gen = {"step": i, "op": op, "diff": c01_inmem_gen.gen_disagreement(resp)}
         mo = K.strip_model(resp["out"])
         o = {k: v for k, v in obs.items() if k != "msg"}
         if coarse_errors and o.get("k") == "err":
@@ -269,13 +273,13 @@ def run_history(ops: list[dict[str, Any]], drv: core.Driver, coarse_errors: bool
                 stats["faults"] += 1
         stats["steps"] += 1
         if mo != o:
-            return {"step": i, "op": op, "kind": "output",
+            return {"step": i, "op": op, "kind": "output", "gen": gen,
                     "why": "output: model %s / InMemoryStorage %s" % (json.dumps(mo, sort_keys=True)[:300], json.dumps(obs, sort_keys=True)[:300])}
         real, dropped = internals(s)
         dropped_all |= dropped
         model = model_view(resp["state"], dropped)
         if real != model:
-            return {"step": i, "op": op, "kind": "internal", "why": "private state after the call differs at " + first_diff(model, real)}
+            return {"step": i, "op": op, "kind": "internal", "gen": gen, "why": "private state after the call differs at " + first_diff(model, real)}
         if o.get("k") == "id":
             (s2r if op["op"] == "createStudy" else t2r).append(o["n"])
         if op["op"] == "createStudy" and o.get("k") == "err":
@@ -288,7 +292,7 @@ def run_history(ops: list[dict[str, Any]], drv: core.Driver, coarse_errors: bool
         if last_best is not None and best != last_best:
             stats["best_changes"] += 1
         last_best = best
-    return {"ok": True, "stats": stats, "dropped": sorted(dropped_all)}
+    return {"ok": True, "stats": stats, "dropped": sorted(dropped_all), "gen": gen}
 
 
 def minimise(ops: list[dict[str, Any]], drv: core.Driver, coarse: bool) -> list[dict[str, Any]]:
@@ -359,10 +363,11 @@ def correspond(chk: core.Check, tier: str | None = None) -> None:
     ]
     chk.rule = (chk.rule + " || " if chk.rule else "") + RULE_INMEM
     gdrv = core.Driver("storage")
-    drv = core.Driver("inmemory")
+    drv = core.Driver(c01_inmem_gen.DRIVER)
     totals = {"histories": 0, "steps": 0, "burnt": 0, "cursor_moves": 0, "best_changes": 0, "faults": 0}
     dropped: set[str] = set()
     failures = 0
+    gen_failures = 0
     try:
         histories: list[tuple[str, list[dict[str, Any]], bool]] = []
         for c in core.corpus_cases("C01"):
@@ -376,6 +381,14 @@ def correspond(chk: core.Check, tier: str | None = None) -> None:
             res = run_history(ops, drv, coarse_errors=off)
             totals["histories"] += 1
             chk.count("inmem-histories:" + fam)
+            if res.get("gen") is not None and gen_failures < 3:
+                gen_failures += 1
+                g = res["gen"]
+                chk.broke("correspondence", {
+                    "what": "the interpreter of the methods generated from _in_memory.py (Generated/InMemoryMethods.lean) and the hand model "
+                            "Model/InMemory.lean differ", "family": fam, "at": g["op"], "step": g["step"],
+                    "method": g["diff"].get("method"), "generated_out": g["diff"]["generated"]["out"], "hand_out": g["diff"]["hand"]["out"],
+                    "ops": ops[: g["step"] + 1]})
             if res.get("ok"):
                 for k, v in res["stats"].items():
                     totals[k] += v
@@ -396,7 +409,7 @@ def correspond(chk: core.Check, tier: str | None = None) -> None:
     finally:
         gdrv.close()
         drv.close()
-    chk.extra["inmem_tie"] = dict(totals, dropped_private_fields=sorted(dropped), failures=failures)
+    chk.extra["inmem_tie"] = dict(totals, dropped_private_fields=sorted(dropped), failures=failures, gen_vs_hand_failures=gen_failures)
     if dropped:
         chk.assumptions.append("private fields of InMemoryStorage that no longer exist and are not compared: %s" % sorted(dropped))
     chk.assumptions.append(
